@@ -55,7 +55,7 @@ Init == /\ cap \in 0..CapMax /\ prof = CHOOSE p \in Profiles : TRUE     \* re-ch
         /\ err = "none" /\ deref = FALSE /\ steps = 0 /\ obs = NoObs
 
 Raise(e) == /\ err' = e /\ pc' = "error"
-            /\ obs' = [kind |-> "error", err |-> e]
+            /\ obs' = [kind |-> "error", err |-> e, apart |-> parena + pstack <= cap]   \* (Apart: always TRUE)
 Keep(vs) == UNCHANGED vs
 
 \* mj_makeData on an empty arena raises an error
